@@ -396,14 +396,17 @@ func connopsBody(cfg connopsCfg, prop string) func() {
 				panic(err)
 			}
 			info, present := res.Presence[actorID]
+			// the signature names the scenario (operation lists + callback mode), so that a finding
+			// recorded for one history does not cover the same symptom in another
+			scen := fmt.Sprintf("%s/async%v", strings.Join(cfg.ops, "+"), cfg.async)
 			if subscribed && !present {
-				vsched.Failf("presence-missing", "A holds a subscription with presence but is absent from the channel presence: %v", events)
+				vsched.Failf("presence-missing:"+scen, "A holds a subscription with presence but is absent from the channel presence: %v", events)
 			}
 			if subscribed && present && info.UserID != "u" {
 				vsched.Failf("presence-wrong-info", "presence entry of A has user %q", info.UserID)
 			}
 			if !subscribed && present {
-				vsched.Failf("presence-stale", "A is not subscribed (closed=%v) but still present: %v", closed, events)
+				vsched.Failf("presence-stale:"+scen, "A is not subscribed (closed=%v) but still present: %v", closed, events)
 			}
 			st, _ := n.PresenceStats(ch)
 			users := map[string]bool{}
